@@ -6,7 +6,7 @@ import sys
 import time
 import traceback
 import z3
-from . import extract, solve
+from . import extract, solve, regexc
 from .sym import Engine, Unsupported, reset_fresh
 from .world import World, REPO
 from . import dsl
@@ -36,7 +36,7 @@ def build_world():
     return w
 
 
-def verify_function(world, qual, timeout_ms=5000, cover=True, mutate=None, want_models=False, shard=None, skip=()):
+def verify_function(world, qual, timeout_ms=5000, cover=True, mutate=None, want_models=False, shard=None, skip=(), stop_on_fail=False):
     """Generate and discharge all VCs of one function. Returns a JSON-able report."""
     t0 = time.time()
     rep = dict(function=qual, status='ok', obligations=[], covers=[])
@@ -65,6 +65,9 @@ def verify_function(world, qual, timeout_ms=5000, cover=True, mutate=None, want_
     world.strmode = getattr(c, 'strmode', None) or 'str'
     # spec functions this contract keeps uninterpreted in its own VCs (sound: it only removes facts)
     world.current_opaque = set(getattr(c, 'opaque_specs', ()))
+    world._unfold_cache = {}
+    world._node_axiom_cache = {}
+    world._scan_cache = {}
     reset_fresh()
     eng = Engine(world, c, fnode, ns, cls_qual=info.cls_qual)
     eng.fn_kind = info.kind
@@ -72,6 +75,11 @@ def verify_function(world, qual, timeout_ms=5000, cover=True, mutate=None, want_
         obs = eng.run()
     except Unsupported as ex:
         rep.update(status='out-of-reach', error=str(ex))
+        return rep
+    except (NotImplementedError, regexc.RegexUnsupported) as ex:
+        # a construct the encoding has no model for (e.g. truthiness of a mapping, a regex anchor in the middle of a pattern):
+        # the function is outside the accepted subset, which is 'undecided', never an engine failure
+        rep.update(status='out-of-reach', error=f'{type(ex).__name__}: {ex}')
         return rep
     except Exception as ex:
         rep.update(status='engine-error', error=f'{type(ex).__name__}: {ex}', trace=traceback.format_exc())
@@ -88,7 +96,7 @@ def verify_function(world, qual, timeout_ms=5000, cover=True, mutate=None, want_
                 rep['obligations'].append(dict(id=ob.id, kind=ob.kind, desc=ob.desc, line=ob.line, result='known-finding',
                                                backend=None, time=r['time'], model=None))
                 continue
-        r = solve.check(world, ob, timeout_ms=timeout_ms, depth=c.unfold)
+        r = solve.check(world, ob, timeout_ms=timeout_ms, depth=c.unfold, prefer_cvc5=getattr(c, 'prefer_cvc5', False))
         entry = dict(id=ob.id, kind=ob.kind, desc=ob.desc, line=ob.line, result=r['result'],
                      backend=r['backend'], time=r['time'], model=r['model'])
         if r['result'] == 'refuted' and want_models and r.get('z3model') is not None and mutate is None:
@@ -102,6 +110,8 @@ def verify_function(world, qual, timeout_ms=5000, cover=True, mutate=None, want_
                 entry['replay'] = dict(status='replay-error', reason=f'{type(ex).__name__}: {ex}')
             hook = getattr(c, 'search', None)
         rep['obligations'].append(entry)
+        if stop_on_fail and entry['result'] != 'proved':
+            break
     if cover and (shard is None or shard[0] == 0):
         for line, what, pc in eng.covers:
             r = solve.cover(world, pc)
@@ -118,6 +128,7 @@ def verify_lemma(world, qual, timeout_ms=5000):
     src = 'def lemma(' + ', '.join(c.params) + '):\n    pass\n'
     fnode = _ast.parse(src).body[0]
     world.strmode = getattr(c, 'strmode', None) or 'str'
+    world.current_opaque = set(getattr(c, 'opaque_specs', ()))
     reset_fresh()
     import spec.css_sem as _ns_mod
     eng = Engine(world, c, fnode, vars(_ns_mod))
